@@ -13,6 +13,22 @@ func JoinTables(t *rapid.T, n int) []TableSpec { return JoinTablesOpt(t, n, fals
 // instants, each written in several zone spellings, so equal instants with different texts meet across the tables) and lets
 // the other columns of CSV tables be Time columns (TableOpts.Time).
 func JoinTablesOpt(t *rapid.T, n int, withTime bool) []TableSpec {
+	return JoinTablesWith(t, n, JoinTablesOpts{Time: withTime})
+}
+
+type JoinTablesOpts struct {
+	Time bool // see JoinTablesOpt
+	// List: the non-key columns of JSON tables may be list columns (TableOpts.List; with prefix twins: rows with the same key
+	// that differ only in a list cell, one list a proper prefix of the other), and in an eighth of the draws the join key
+	// itself is a list of Float (all tables JSON then; keys from the prefix chain [] [1] [1,2] [1,2,3]).
+	List bool
+	// MinRows: at least so many rows per table (default 1); with the 3-value key pool, 3 or more rows make duplicate keys
+	// on both sides the normal case
+	MinRows int
+}
+
+func JoinTablesWith(t *rapid.T, n int, o JoinTablesOpts) []TableSpec {
+	withTime := o.Time
 	format := rapid.SampledFrom([]string{"csv", "json", "mixed"}).Draw(t, "jformat")
 	keyKind := rapid.SampledFrom([]string{"int", "str", "float"}).Draw(t, "keykind")
 	if format != "csv" && keyKind == "int" {
@@ -20,6 +36,9 @@ func JoinTablesOpt(t *rapid.T, n int, withTime bool) []TableSpec {
 	}
 	if withTime && rapid.IntRange(0, 4).Draw(t, "timekey") == 0 {
 		format, keyKind = "csv", "time"
+	}
+	if o.List && keyKind != "time" && rapid.IntRange(0, 7).Draw(t, "listkey") == 0 {
+		format, keyKind = "json", "listf"
 	}
 	names := []string{"ta", "tb", "tc"}
 	var out []TableSpec
@@ -30,7 +49,11 @@ func JoinTablesOpt(t *rapid.T, n int, withTime bool) []TableSpec {
 			f = rapid.SampledFrom([]string{"csv", "json"}).Draw(t, fmt.Sprintf("fmt%d", i))
 		}
 		kinds := []string{"int", "float", "str", "bool"}
-		tbl := Table(t, TableOpts{Name: names[i], Format: f, MinRows: 1, MaxRows: 7, MaxCols: 3, KeyPool: true, NoLong: i != long, Kinds: kinds, Time: withTime})
+		minRows := 1
+		if o.MinRows > 0 {
+			minRows = o.MinRows
+		}
+		tbl := Table(t, TableOpts{Name: names[i], Format: f, MinRows: minRows, MaxRows: 7, MaxCols: 3, KeyPool: true, NoLong: i != long, Kinds: kinds, Time: withTime, List: o.List})
 		// force the key kind
 		tbl.Cols[0].Kind = keyKind
 		for r := range tbl.Rows {
@@ -45,10 +68,18 @@ func JoinTablesOpt(t *rapid.T, n int, withTime bool) []TableSpec {
 				tbl.Rows[r][0] = FromFloat(float64(rapid.IntRange(1, 3).Draw(t, label)))
 			case "time":
 				tbl.Rows[r][0] = timeCell(t, timeKeyPoolSec, label)
+			case "listf":
+				pool := listKeyPoolF
+				if r == 0 {
+					pool = pool[:3] // the first row's list is never empty (the inferred type would be the untyped [])
+				}
+				tbl.Rows[r][0] = rapid.SampledFrom(pool).Draw(t, label)
 			default:
 				tbl.Rows[r][0] = Str(rapid.SampledFrom([]string{"x", "y", "z"}).Draw(t, label))
 			}
 		}
+		// the keys were redrawn: make twins again, now with equal keys
+		addListTwins(t, &tbl, names[i]+"j")
 		out = append(out, tbl)
 	}
 	return out
@@ -161,6 +192,18 @@ func JoinQuery(t *rapid.T, tables []TableSpec, o JoinOpts, label string) Q {
 		}
 		q.Items = append(q.Items, Item{E: e, Alias: fmt.Sprintf("j%d", i)})
 	}
+	// list columns travelling through the join as payload: project them as they are in half of the queries that have one
+	var listCols []ScopeCol
+	for _, c := range scope {
+		if IsListKind(c.Kind) {
+			listCols = append(listCols, c)
+		}
+	}
+	if len(listCols) > 0 && rapid.Bool().Draw(t, label+"listpayload") {
+		for i, c := range listCols {
+			q.Items = append(q.Items, Item{E: E{Op: "col", Kind: c.Kind, Col: c.Ref}, Alias: fmt.Sprintf("jl%d", i)})
+		}
+	}
 	if rapid.IntRange(0, 5).Draw(t, label+"distinct") == 0 {
 		q.Distinct = true
 	}
@@ -170,6 +213,30 @@ func JoinQuery(t *rapid.T, tables []TableSpec, o JoinOpts, label string) Q {
 	if rapid.IntRange(0, 4).Draw(t, label+"limit") == 0 {
 		n := rapid.IntRange(0, 6).Draw(t, label+"n")
 		q.Limit = &n
+	}
+	return q
+}
+
+// JoinLimitQuery draws the join part of `SELECT <every column of every table> FROM ta a JOIN tb b ON a.k = b.k [JOIN tc c ON
+// b.k = c.k]`: inner (now and then LOOKUP) joins on the key alone, no WHERE / DISTINCT / ORDER BY, so that with duplicate keys
+// on both sides one arriving record is joined with several stored ones. The caller puts the LIMIT on.
+func JoinLimitQuery(t *rapid.T, tables []TableSpec, label string) Q {
+	aliases := []string{"a", "b", "c"}
+	q := Q{From: Src{Kind: "table", Table: tables[0].File(), Alias: aliases[0]}}
+	for i, tbl := range tables {
+		sc := ScopeOfTable(tbl, aliases[i])
+		if i > 0 {
+			prev := ScopeOfTable(tables[i-1], aliases[i-1])
+			if i == 2 && rapid.Bool().Draw(t, label+"chain0") {
+				prev = ScopeOfTable(tables[0], aliases[0])
+			}
+			on := E{Op: "cmp", S: "=", Kind: "bool", Args: []E{{Op: "col", Kind: prev[0].Kind, Col: prev[0].Ref}, {Op: "col", Kind: sc[0].Kind, Col: sc[0].Ref}}}
+			jt := rapid.SampledFrom([]string{"inner", "inner", "inner", "lookup"}).Draw(t, fmt.Sprintf("%sjt%d", label, i))
+			q.Joins = append(q.Joins, Join{Type: jt, Src: Src{Kind: "table", Table: tbl.File(), Alias: aliases[i]}, On: &on})
+		}
+		for ci, c := range sc {
+			q.Items = append(q.Items, Item{E: E{Op: "col", Kind: c.Kind, Col: c.Ref}, Alias: fmt.Sprintf("%s%d", aliases[i], ci)})
+		}
 	}
 	return q
 }
@@ -193,7 +260,9 @@ func aggItem(t *rapid.T, scope []ScopeCol, o ExprOpts, alias, label string) Item
 		// octosql has max over Time but no min, sum or avg over Time
 		kinds = []string{"int", "float", "time"}
 	default:
-		kinds = []string{"int", "float", "str", "bool", "time"}
+		// count and array_agg (and their DISTINCT variants) take lists as well; min/max(list) pass the typechecker but fail at
+		// run time, sum/avg(list) are type errors
+		kinds = []string{"int", "float", "str", "bool", "time", "listf", "lists"}
 	}
 	var avail []string
 	for _, k := range kinds {
